@@ -43,6 +43,7 @@ Json Sched::to_json(bool with_switches) const {
   j["rr_q"] = rr_q;
   j["plain_points"] = plain_points;
   j["budget"] = (long long)budget;
+  j["total_cap"] = (long long)total_cap;
   j["demote_after"] = (long long)demote_after;
   j["ticks_jitter"] = ticks_jitter;
   if (with_switches && policy == POL_REPLAY) {
@@ -66,6 +67,7 @@ Sched Sched::from_json(const Json &j) {
   s.rr_q = (int)j.at("rr_q").as_int(1);
   s.plain_points = j.at("plain_points").as_bool(true);
   s.budget = (uint64_t)j.at("budget").as_int(20000000);
+  s.total_cap = (uint64_t)j.at("total_cap").as_int(600000000);
   s.demote_after = (uint64_t)j.at("demote_after").as_int(300);
   s.ticks_jitter = (int)j.at("ticks_jitter").as_int(0);
   const Json &a = j.at("switches");
@@ -160,6 +162,7 @@ struct Sim {
   uint64_t seq = 0;       // global sequence number
   uint64_t decisions = 0; // decision index (replay key)
   size_t replay_pos = 0;
+  uint64_t last_progress = 0;
   // region
   bool region = false;
   int team = 1;
@@ -267,13 +270,21 @@ int decide(bool cur_live) {
     return -1;
   int choice = dflt;
 
-  // budget handling
-  if (G.stats.points > G.sched.budget) {
+  // liveness budget
+  const uint64_t idle = G.stats.points - G.last_progress;
+  if (idle > G.sched.budget) {
     G.stats.aborted = true;
-    G.stats.abort_reason = "scheduling-point budget exhausted in fair phase";
+    G.stats.abort_reason = "no progress event for the whole step budget "
+                           "(second half under the fair policy)";
     return -2;
   }
-  if (G.stats.points > G.sched.budget / 2) {
+  if (G.stats.points > G.sched.total_cap) {
+    G.stats.aborted = true;
+    G.stats.inconclusive = true;
+    G.stats.abort_reason = "total point cap reached while still progressing";
+    return -2;
+  }
+  if (idle > G.sched.budget / 2) {
     // fair phase: uniform random among live fibers (fair with probability 1,
     // breaks lock-step symmetry)
     if (!G.stats.fair_phase) {
@@ -476,6 +487,7 @@ void run_region(int n) {
   }
   G.region = true;
   G.cur = 0;
+  G.last_progress = G.stats.points; // a new region is progress
   // region start = decision point (who runs first)
   int first = decide(false);
   if (first == -2) {
@@ -526,6 +538,7 @@ void run_begin(const Sched &s, Listener *l) {
   G.seq = 0;
   G.decisions = 0;
   G.replay_pos = 0;
+  G.last_progress = 0;
   G.region = false;
   G.team = 1;
   G.cur = 0;
@@ -570,6 +583,7 @@ void mark_progress() {
     G.fibers[G.cur].fail_streak = 0;
   }
 }
+void global_progress() { G.last_progress = G.stats.points; }
 void harness_yield(const void *addr) { point(addr, 0x7f); }
 int lock_holder(const void *addr) {
   auto it = G.holders.find(addr);
@@ -667,6 +681,21 @@ void cmi_verif_event(int kind, const void *a, const void *b, long x, long y) {
     return;
   }
   mark_progress();
+  switch (kind) {
+  case CMI_VERIF_EVENT_PACKET_LAUNCH:
+  case CMI_VERIF_EVENT_PACKET_DONE:
+  case CMI_VERIF_EVENT_PACKET_OUT:
+  case CMI_VERIF_EVENT_PACKET_REEMIT:
+  case CMI_VERIF_EVENT_ITERATION_BEGIN:
+  case CMI_VERIF_EVENT_ITERATION_END:
+  case CMI_VERIF_EVENT_HYDRO_STEP_BEGIN:
+  case CMI_VERIF_EVENT_HYDRO_STEP_END:
+  case CMI_VERIF_EVENT_HYDRO_TASK_END:
+    global_progress();
+    break;
+  default:
+    break;
+  }
   if (G.listener)
     G.listener->on_event(kind, a, b, x, y);
 }
